@@ -86,17 +86,17 @@ add("C12", "model_checking", "MC_TwoWay/MC_SubBlocks1/MC_PackedPair step the bui
     "DESIGN.md 4 C12", TRUST, SUB_TECH)
 add("C13", "model_checking", "Linear-work invariants on the cost-annotated L-models (exhaustive on bounded domains) + Trace_Cost validation of the hooks' deterministic step counters on adversarial "
     "families up to 2^18 (thorough 2^22) bytes, and on needle-only records (every needle shape, its mirror image, shapes with a defect in the middle; up to 16384 bytes) for the cost of "
-    "building forward and reverse finders. An asymptotic claim is decided only up to explored sizes/families.", "DESIGN.md 4 C13, 8", TRUST + "; counters from cfg(memchr_verif) hooks", "cost-annotated TLA+ models + TLC trace validation of recorded step counters")
+    "building forward and reverse finders, and on haystacks shorter than twice the needle. An asymptotic claim is decided only up to explored sizes/families.", "DESIGN.md 4 C13, 8", TRUST + "; counters from cfg(memchr_verif) hooks", "cost-annotated TLA+ models + TLC trace validation of recorded step counters")
 add("C14", "model_checking", "bad/panic flags of all L-models are invariants; all vector families executed with debug assertions and overflow checks under catch_unwind; packed-pair panic exactly below "
-    "min_haystack_len; MC_PrefilterState explores every is_effective/update sequence at a scaled counter width (NoOverflow) and the real-width witness (> 2^29 prefilter calls on a 5.4 GB "
+    "min_haystack_len; finders built from pairs with offsets up to 254 (portable / SSE2 / AVX2 with_pair, Finder::new on needles up to 600 bytes) and the extreme-offset packed-pair family; MC_PrefilterState explores every is_effective/update sequence at a scaled counter width (NoOverflow) and the real-width witness (> 2^29 prefilter calls on a 5.4 GB "
     "haystack) of the genuine defect found with this machinery (u32 multiplication overflow, repaired by /repo commit df0e36e, see known_findings.json) is re-run on every check.",
     "DESIGN.md 4 C14, 11.3a", TRUST + "; the 5.4 GB witness needs >= 12 GB of free memory (otherwise listed as skipped)", "TLA+ NoPanic/NoOverflow invariants + replay in checked builds + real-width overflow witness")
 add("C15", "model_checking", "Ifunc: every interleaving of 3 threads x 2 calls with Relaxed semantics (modification order + views), all CPU outcomes, liveness under WF; native racing first calls in fresh processes "
     "and shared finders (short needles; and a > 32-byte needle whose adaptive prefilter one thread exhausts while the others are mid-search) validated by TLC (Trace_Lib); dispatcher events "
     "checked against the per-thread projection; the same scenario under host Miri with seed-controlled schedules (optional vehicle).", "DESIGN.md 4 C15", TRUST + "; real schedules sampled", "TLA+ action spec with relaxed-memory views + trace validation of racing executions")
 add("C16", "model_checking", "MC_MemmemObjects: every order of find/next/clone/clone_next/into_owned/drop_buffer up to Depth; history independence and clone/owned futures; replayed on real objects with the "
-    "needle buffer really overwritten and dropped.", "DESIGN.md 4 C16", TRUST, "TLA+ action spec of finder/iterator objects; behaviours replayed")
-add("C17", "exploration", "Counting global allocator armed per call over every oracle vector (1:1, lifted, every dispatch level) and every iterator behaviour; the spec contributes the operation classification "
+    "needle buffer really overwritten and dropped; the lifted near-miss family (needles > 32 bytes) exercises reuse of one finder across haystacks that leave Two-Way / the prefilter in every intermediate state.", "DESIGN.md 4 C16", TRUST, "TLA+ action spec of finder/iterator objects; behaviours replayed")
+add("C17", "exploration", "Counting global allocator armed per call over every oracle vector (1:1, lifted, every dispatch level; find / rfind / iterators / builder configurations incl. caller-supplied rankers) and every iterator behaviour; the spec contributes the operation classification "
     "(Trace_Lib: al = 0 unless own) and the inputs, no exhaustiveness.", "DESIGN.md 4 C17, 8", TRUST + "; allocation is not modelled inside actions", "allocation counting on TLC-generated inputs")
 add("C18", "model_checking", "MC_IsEqual: all binary pairs up to 7/8 bytes + equal-length pairs up to 48/72 bytes with <= 2 differences; L-model of the 4/2/1 loop = equality, wrappers = starts_with/ends_with; replay with "
     "8x8 alignments, guard pages, aliasing operands.", "DESIGN.md 4 C18", TRUST, "TLA+ L-model of is_equal_raw + replay")
